@@ -46,7 +46,7 @@ def main():
             lines = [ln for ln in r.stdout.splitlines() if ln.startswith(('VIOLATION', c + ' tier', 'HARNESS', '   key', '   obs'))]
             print('== %s on %s: exit %d' % (c, name, r.returncode))
             for ln in lines[:10]:
-                print('   ' + ln[:220])
+                print("   " + ln[:600])
             if r.returncode not in (0, 1):
                 print(r.stdout[-1500:], r.stderr[-1500:])
     finally:
